@@ -20,6 +20,7 @@ def one(sid):
     scratch = tempfile.mkdtemp(prefix='seedrepo-%s-' % sid)
     try:
         subprocess.run('git -C /repo archive HEAD | tar -x -C %s' % scratch, shell=True, check=True)
+        shutil.copy('/repo/Cargo.lock', os.path.join(scratch, 'Cargo.lock'))
         if subprocess.run(['patch', '-p1', '-s', '-d', scratch, '-i', os.path.join(d, 'patch.diff')]).returncode != 0:
             return sid, prop, None
         env = dict(os.environ, VERIF_REPO=scratch, VERIF_EVIDENCE_DIR=os.path.join(scratch, 'evidence'), VERIF_KANI_JOBS='6')
@@ -48,6 +49,10 @@ def one(sid):
         return sid, prop, res
     finally:
         shutil.rmtree(scratch, ignore_errors=True)
+        import hashlib
+        tag = hashlib.sha1(os.path.abspath(scratch).encode()).hexdigest()[:8]
+        shutil.rmtree(os.path.join(V, 'work', 'replay-src-' + tag), ignore_errors=True)
+        shutil.rmtree(os.path.join(V, 'work', 'replay-target-' + tag), ignore_errors=True)
 
 with cf.ThreadPoolExecutor(max_workers=jobs) as pool:
     for sid, prop, res in pool.map(one, ids):
